@@ -342,15 +342,18 @@ class EditableModule(object):
         try:
             for (objdict, key), tensor in zip(all_places, copy_tensors0):
                 objdict[key] = tensor
-            output = method(*args, **kwargs)
-            if isinstance(output, (list, tuple)) and len(output) > 0 and \
-                    all(isinstance(out, torch.Tensor) for out in output):
-                # a method with several tensor outputs (the functionals accept those)
-                output = sum(out.sum() for out in output)
-            elif not isinstance(output, torch.Tensor):
-                raise RuntimeError("The method to be asserted must have a tensor output")
-            else:
-                output = output.sum()
+            # (the check may be reached with grad recording off, e.g. from the
+            # forward pass of an enclosing functional or under torch.no_grad())
+            with torch.enable_grad():
+                output = method(*args, **kwargs)
+                if isinstance(output, (list, tuple)) and len(output) > 0 and \
+                        all(isinstance(out, torch.Tensor) for out in output):
+                    # a method with several tensor outputs (the functionals accept those)
+                    output = sum(out.sum() for out in output)
+                elif not isinstance(output, torch.Tensor):
+                    raise RuntimeError("The method to be asserted must have a tensor output")
+                else:
+                    output = output.sum()
             grad_tensors = torch.autograd.grad(output, copy_tensors0, retain_graph=True, allow_unused=True)
         finally:
             # return the original tensors to exactly the places they were taken
